@@ -6,10 +6,14 @@ mod c01;
 mod c02;
 mod c02x;
 mod c03;
+mod c09;
+mod c10;
+mod bessel;
 mod common;
 mod engine;
 mod prog;
 mod registry;
+mod selftest;
 mod types;
 
 use engine::{run, Args, Tier};
@@ -21,6 +25,9 @@ fn main() {
         std::process::exit(2);
     }
     let prop = argv[1].clone();
+    if prop == "selftest" {
+        std::process::exit(selftest::run());
+    }
     let mut tier = match std::env::var("VERIF_TIER").ok().as_deref() {
         Some("thorough") => Tier::Thorough,
         _ => Tier::Quick,
@@ -64,6 +71,10 @@ fn main() {
         "C01" => run::<c01::C01>(&args),
         "C02" => run::<c02::C02>(&args),
         "C03" => run::<c03::C03>(&args),
+        "C09" => run::<c09::C09>(&args),
+        "C10" => run::<c10::C10>(&args),
+        "C14" => run::<bessel::C14>(&args),
+        "C15" => run::<bessel::C15>(&args),
         other => {
             eprintln!("unknown property {other}");
             2
